@@ -59,6 +59,11 @@ impl Arena {
         }
     }
 
+    /// longest slice `place` accepts
+    pub fn capacity(&self) -> usize {
+        self.usable - PRE - 2 * ALIGN_BASE
+    }
+
     fn release_heap(&mut self) {
         if let Some(l) = self.cur_layout.take() {
             unsafe { std::alloc::dealloc(self.cur, l) };
